@@ -56,7 +56,11 @@ def run(chk: Check):
             dict(seq="rw_mh_rw", model_kind="dict", seed=chk.seed + 1),
             dict(seq="rw_mh_rw", model_kind="liesel", seed=chk.seed + 2, custom_idents=False),
             dict(seq="rw_hi_u_ab", model_kind="liesel2", seed=chk.seed + 7),
-            dict(seq="fdgibbs_rw", model_kind="liesel3", seed=chk.seed + 9)]
+            dict(seq="fdgibbs_rw", model_kind="liesel3", seed=chk.seed + 9),
+            # a later kernel reports an error code (NaN ratio outside the support) after an earlier one moved
+            dict(seq="rw_x_rw_g", model_kind="dict2", seed=chk.seed + 10, schedule=((1, 6), (4, 8))),
+            # the builder is given another interface first (same node names, different graph), after the first kernel
+            dict(seq="rw_sigma_first", model_kind="liesel", seed=chk.seed + 11, double_set_model=True)]
     if not chk.quick:
         jobs += [dict(seq="gibbs_nuts", model_kind="liesel", seed=chk.seed + 3),
                  dict(seq="hmc_rw", model_kind="liesel", seed=chk.seed + 4),
